@@ -1,10 +1,8 @@
-SPECIFICATION Spec
 CONSTANTS B1 <- EnvB1 B2 <- EnvB2 MLen <- EnvMLen Variant = "code"
 CONSTANT Lengths <- MCLengths
 CONSTANT Descs <- MCDescs
 CONSTANT Desc <- MCDesc
 CONSTANT ZLens <- MCZLens
-INVARIANT TypeOK
-INVARIANT AlwaysRuns
-INVARIANT PosIsOffset
+INIT NoInit
+NEXT NoNext
 CHECK_DEADLOCK FALSE
